@@ -935,8 +935,20 @@ func e2eScenarios(seed uint64, tier string) []struct {
 		cfg e2eCfg
 		ops []e2eOp
 	}
+	// the first scenarios cover the option combinations that matter for "a name resolves like a
+	// constructor": every real network with and without TLS, by name and by constructor
+	cover := []struct {
+		net        string
+		tls, names bool
+	}{{"tcp", true, true}, {"tcp", true, false}, {"http", true, true}, {"http", true, false}, {"tcp", false, true}, {"unix", false, true}, {"http", false, true}, {"inproc", false, true}}
 	for i := 0; i < n; i++ {
 		c, ops := genE2E(r.Fork(), tier)
+		if i < len(cover) {
+			c.Net, c.TLS, c.Names = cover[i].net, cover[i].tls, cover[i].names
+			if c.Net != "tcp" && c.Net != "unix" {
+				c.SPoll = false
+			}
+		}
 		out = append(out, struct {
 			cfg e2eCfg
 			ops []e2eOp
